@@ -6,6 +6,7 @@ import Driver.Reduce
 import Driver.Lineage
 import Driver.Front
 import Driver.Meta
+import Driver.Cli
 /-
   oxidriver: line protocol over the executable model.
   One request per line: `<op> <arg> ...`; one answer line per request.
@@ -13,7 +14,7 @@ import Driver.Meta
 -/
 namespace Driver
 
-def handlers : List (List String → Option String) := [handleFilters, handleGeom, handleEval, handleDecision, handleReduce, handleLineage, handleFront, handleMeta]
+def handlers : List (List String → Option String) := [handleFilters, handleGeom, handleEval, handleDecision, handleReduce, handleLineage, handleFront, handleMeta, handleCli]
 
 def handle (args : List String) : String :=
   match handlers.findSome? (fun h => h args) with
